@@ -23,6 +23,11 @@ class Undecided(AnalysisError):
     pass
 
 
+class LoopLimit(Undecided):
+    """a while loop ran past its iteration bound: on symbolic input nothing follows (the abstraction may not see the exit); on fully
+    concrete input it is evidence that the loop does not terminate for that input"""
+
+
 class PathLimit(AnalysisError):
     pass
 
@@ -552,7 +557,7 @@ class Interp:
                 self.exec_block(fn.node.body, fr)
             except _Return:
                 pass
-            return ListV(fr.yields)
+            return ListV(fr.yields, lazy=True)
         if _is_generator(fn.node):
             if hasattr(self, 'p_' + fn.name):
                 return getattr(self, 'p_' + fn.name)(args, [kwargs.get(k) for k in ()] and kwargs or kwargs, node)
@@ -694,7 +699,7 @@ class Interp:
             while self.truth(self.eval(st.test, fr), st.test):
                 n += 1
                 if n > getattr(self, 'max_while', 64):
-                    raise Undecided('while loop does not terminate abstractly (line %d)' % st.lineno)
+                    raise LoopLimit('while loop still running after %d iterations (line %d)' % (n - 1, st.lineno))
                 try:
                     self.exec_block(st.body, fr)
                 except _Continue:
@@ -1514,7 +1519,7 @@ class Interp:
         return ListV(self._comp(n, fr))
 
     def e_GeneratorExp(self, n, fr):
-        return ListV(self._comp(n, fr))
+        return ListV(self._comp(n, fr), lazy=True)
 
     def e_SetComp(self, n, fr):
         if not getattr(self, 'concrete_context', False):
@@ -1649,6 +1654,11 @@ class Interp:
             rest = v.items[v.pos:]
             v.pos = len(v.items)
             return rest
+        if isinstance(v, ListV) and getattr(v, 'lazy', False):
+            # a one-shot iterator (generator, zip, map, ...): what is read is gone - a second pass finds it empty
+            items_ = list(v.items)
+            del v.items[:]
+            return items_
         if isinstance(v, (ListV, TupleV, SetV)):
             return list(v.items)
         if isinstance(v, DictV):
@@ -2180,6 +2190,21 @@ class Interp:
                     return _wrap_py(getattr(ast, name[4:])(*[x.v for x in args], **kw_))
                 except Exception as e:
                     raise Raised('%s: %s' % (type(e).__name__, e), getattr(node, 'lineno', 0))
+        if h is None and getattr(self, 'concrete_context', False) and '.' in name and name.split('.')[0] in ('unicodedata', 'math', 'keyword', 'string') \
+                and not kwargs and args:
+            # a pure function of the standard library on constants: evaluated by the library itself
+            try:
+                pargs_ = [_plain(x) for x in args]
+            except _NotPlain:
+                pargs_ = None
+            if pargs_ is not None:
+                import importlib as _il
+                fn_ = getattr(_il.import_module(name.split('.')[0]), name.split('.', 1)[1], None)
+                if callable(fn_):
+                    try:
+                        return _wrap_py(fn_(*pargs_))
+                    except Exception as e:
+                        raise Raised('%s: %s' % (type(e).__name__, e), getattr(node, 'lineno', 0))
         if h is None and name.startswith(('math.', 're.')):
             return Sym('%s(%s)' % (name, ','.join(_prov(x) for x in args)))
         if h is None:
@@ -2404,7 +2429,7 @@ class Interp:
         out = []
         for x in a:
             out.extend(self.iterate(x, n))
-        return ListV(out)
+        return ListV(out, lazy=True)
 
     def p_any(self, a, k, n):
         return Const(any(self.truth(x, n) for x in self.iterate(a[0], n)))
@@ -2413,7 +2438,7 @@ class Interp:
         return Const(all(self.truth(x, n) for x in self.iterate(a[0], n)))
 
     def p_take(self, a, k, n):
-        return ListV(self.iterate(a[1], n))
+        return ListV(self.iterate(a[1], n), lazy=True)
 
     def p_islice(self, a, k, n):
         if not getattr(self, 'concrete_context', False):
@@ -2436,7 +2461,7 @@ class Interp:
             if i:
                 out.append(a[0])
             out.append(x)
-        return ListV(out)
+        return ListV(out, lazy=True)
 
     def p_identity(self, a, k, n):
         return a[0]
